@@ -59,7 +59,6 @@ func (h HelperContext) BlockWith(hc hctx.Context) (string, error) {
 	cc := *h.compiler
 	cc.ctx = ctx
 	cc.curStmt = nil
-	cc.loopControl = nil
 
 	i, err := cc.evalBlockStatement(h.block)
 	if err != nil {
@@ -75,9 +74,9 @@ func (h HelperContext) BlockWith(hc hctx.Context) (string, error) {
 	// statement holding the call is done
 	switch ctl := i.(type) {
 	case continueObject:
-		i, h.compiler.loopControl = ctl.Value, continueObject{}
+		i, h.compiler.signal().ctl = ctl.Value, continueObject{}
 	case breakObject:
-		i, h.compiler.loopControl = ctl.Value, breakObject{}
+		i, h.compiler.signal().ctl = ctl.Value, breakObject{}
 	}
 
 	bb := &strings.Builder{}
